@@ -248,6 +248,10 @@ func coerceFloat(value interface{}) interface{} {
 		}
 		return coerceFloat(*value)
 	case float32:
+		if math.IsInf(float64(value), 0) {
+			// not a number a response can carry (JSON has no infinities)
+			return nil
+		}
 		return value
 	case *float32:
 		if value == nil {
@@ -255,6 +259,9 @@ func coerceFloat(value interface{}) interface{} {
 		}
 		return coerceFloat(*value)
 	case float64:
+		if math.IsInf(value, 0) {
+			return nil
+		}
 		return value
 	case *float64:
 		if value == nil {
@@ -263,7 +270,7 @@ func coerceFloat(value interface{}) interface{} {
 		return coerceFloat(*value)
 	case string:
 		val, err := strconv.ParseFloat(value, 0)
-		if err != nil {
+		if err != nil || math.IsInf(val, 0) {
 			return nil
 		}
 		return val
